@@ -126,7 +126,7 @@ QPos(x, g) ==
   LET sh == x[2] - g + 2 IN
   IF x[1] = 0 THEN <<0, 0>>
   ELSE IF sh >= 0 THEN
-       IF sh > 6 \/ Abs(x[1]) * Pow2(sh) >= BigPos THEN <<Sgn(x[1]) * BigPos, 0>> ELSE <<x[1] * Pow2(sh), 0>>
+       IF BitLen(Abs(x[1])) + sh > 21 \/ Abs(x[1]) * Pow2(sh) >= BigPos THEN <<Sgn(x[1]) * BigPos, 0>> ELSE <<x[1] * Pow2(sh), 0>>
   ELSE IF -sh >= 26 THEN <<IF x[1] > 0 THEN 0 ELSE -1, 1>>
   ELSE LET d == Pow2(-sh)
            q == FloorDiv(x[1], d)
